@@ -88,6 +88,27 @@ macro_rules! parse_via {
     }};
 }
 
+/// One `Formatter` object used for two parses of the same text under two different clocks
+/// (a = [clock A, clock B, text, picture]): a formatter must not remember anything between calls.
+macro_rules! parse_reuse {
+    ($ty:ty, $a:expr, $enc:expr) => {{
+        let (t, p) = (a_txt(&$a[2]), a_txt(&$a[3]));
+        let ca = $a[0].as_array().unwrap_or_else(|| panic!("harness: clock expected"));
+        let cb = $a[1].as_array().unwrap_or_else(|| panic!("harness: clock expected"));
+        match Formatter::try_new(&p) {
+            Err(e) => ok(json!([res(Err::<$ty, Error>(e.clone()), $enc), res(Err::<$ty, Error>(e), $enc)])),
+            Ok(f) => {
+                set_clock(ca);
+                let _g = ClockGuard;
+                let r1: Result<$ty, Error> = f.parse::<_, $ty>(&t);
+                set_clock(cb);
+                let r2: Result<$ty, Error> = f.parse::<_, $ty>(&t);
+                ok(json!([res(r1, $enc), res(r2, $enc)]))
+            }
+        }
+    }};
+}
+
 macro_rules! trunc_round {
     ($name:expr, $v:expr, $enc:expr) => {
         match $name {
@@ -455,6 +476,7 @@ fn exec_date(name: &str, a: &[Value]) -> Option<Value> {
             let (t, p) = (a_txt(&a[0]), a_txt(&a[1]));
             parse_via!(Date, &t, &p, r_date)
         }
+        "parse_reuse_at" => parse_reuse!(Date, a, r_date),
         "bin" => {
             let v = a_date(&a[0]);
             ok(bin_roundtrip(&v, i32_of, |r| json!(r), |b| bincode::deserialize::<Date>(b).ok(), r_date))
@@ -518,6 +540,7 @@ fn exec_time(name: &str, a: &[Value]) -> Option<Value> {
             let (t, p) = (a_txt(&a[0]), a_txt(&a[1]));
             parse_via!(Time, &t, &p, r_time)
         }
+        "parse_reuse_at" => parse_reuse!(Time, a, r_time),
         "bin" => {
             let v = a_time(&a[0]);
             ok(bin_roundtrip(&v, i64_of, |r| v3(r as i128), |b| bincode::deserialize::<Time>(b).ok(), r_time))
@@ -588,6 +611,7 @@ fn exec_ts(name: &str, a: &[Value]) -> Option<Value> {
             let (t, p) = (a_txt(&a[0]), a_txt(&a[1]));
             parse_via!(Timestamp, &t, &p, r_ts)
         }
+        "parse_reuse_at" => parse_reuse!(Timestamp, a, r_ts),
         "bin" => {
             let v = a_ts(&a[0]);
             ok(bin_roundtrip(&v, i64_of, |r| v3(r as i128), |b| bincode::deserialize::<Timestamp>(b).ok(), r_ts))
@@ -645,6 +669,7 @@ fn exec_ym(name: &str, a: &[Value]) -> Option<Value> {
             let (t, p) = (a_txt(&a[0]), a_txt(&a[1]));
             parse_via!(IntervalYM, &t, &p, r_ym)
         }
+        "parse_reuse_at" => parse_reuse!(IntervalYM, a, r_ym),
         "bin" => {
             let v = a_ym(&a[0]);
             ok(bin_roundtrip(&v, i32_of, |r| json!(r), |b| bincode::deserialize::<IntervalYM>(b).ok(), r_ym))
@@ -707,6 +732,7 @@ fn exec_dt(name: &str, a: &[Value]) -> Option<Value> {
             let (t, p) = (a_txt(&a[0]), a_txt(&a[1]));
             parse_via!(IntervalDT, &t, &p, r_dt)
         }
+        "parse_reuse_at" => parse_reuse!(IntervalDT, a, r_dt),
         "bin" => {
             let v = a_dt(&a[0]);
             ok(bin_roundtrip(&v, i64_of, |r| v3(r as i128), |b| bincode::deserialize::<IntervalDT>(b).ok(), r_dt))
@@ -782,6 +808,7 @@ fn exec_od(name: &str, a: &[Value]) -> Option<Value> {
             let (t, p) = (a_txt(&a[0]), a_txt(&a[1]));
             parse_via!(OracleDate, &t, &p, r_od)
         }
+        "parse_reuse_at" => parse_reuse!(OracleDate, a, r_od),
         "bin" => {
             let v = a_od(&a[0]);
             ok(bin_roundtrip(&v, i64_of, |r| v3(r as i128), |b| bincode::deserialize::<OracleDate>(b).ok(), r_od))
